@@ -101,9 +101,15 @@ class ModelQuantumEngine:
         self.msg_job: Dict[str, str] = {}       # message id -> job name
         self.msg_kind: Dict[str, str] = {}
         self.lost_requests: List[str] = []      # T2: message ids dropped by a dead reader
+        self.injected_unary: List = []
         self.client = _Client(self)
         self.problems: List[str] = []
         self.is_subscribed = lambda mid: True   # set by the workload: peeks at the client's demux
+        self.result_factory = None              # L2: job name -> any_pb2.Any payload of QuantumResult.result
+        self.unary_pending: List = []           # [id, rpc name, request, asyncio future]
+        self.unary_log: List = []               # (rpc name, target name, outcome)
+        self._unary_seq = 0
+        self.unary_fault_budget = 3 if (enabled_faults.get("unary-5xx") or enabled_faults.get("unary-4xx")) else 0
 
     # ------------------------------------------------------------------------------------------------
     # transport: called from asyncio code running inside SimLoop
@@ -189,6 +195,7 @@ class ModelQuantumEngine:
                                 (lambda s=st, r=resp: self._deliver(s, r))))
                 if st.half_closed and not st.unanswered and not st.unprocessed:
                     evs.append((f"close:{st.epoch}", (lambda s=st: self._end_stream(s))))
+        evs.extend(self._unary_events())
         if self.fault_budget > 0 and not self.sim.fair:
             for st in self.streams:
                 if st.alive and not st.ended:
@@ -273,11 +280,98 @@ class ModelQuantumEngine:
 
     def _reply_final(self, st: Stream, mid: str, job: Job) -> None:
         if job.state == "DONE":
-            self._reply(st, mid, result=quantum.QuantumResult(parent=job.name))
+            self._reply(st, mid, result=self.make_result(job.name))
         else:
             qj = quantum.QuantumJob(name=job.name)
             qj.execution_status.state = quantum.ExecutionStatus.State.FAILURE
             self._reply(st, mid, job=qj)
+
+    def make_result(self, job_name: str):
+        if self.result_factory is None:
+            return quantum.QuantumResult(parent=job_name)
+        return quantum.QuantumResult(parent=job_name, result=self.result_factory(job_name))
+
+    # -- unary RPCs (L2): each call completes when the simulator says so -----------------------------------
+    def _unary_events(self):
+        evs = []
+        for item in self.unary_pending:
+            uid, name, _req, _fut = item
+            evs.append((f"unary:{name}:{uid}", (lambda it=item: self._unary_complete(it))))
+        return evs
+
+    def _unary_complete(self, item) -> None:
+        uid, name, req, fut = item
+        self.unary_pending.remove(item)
+        if fut.done():
+            return
+        if (self.unary_fault_budget > 0 and not self.sim.fair and (self.enabled_faults.get("unary-5xx") or
+                                                                    self.enabled_faults.get("unary-4xx"))
+                and self.sim.tape.chance(1, 3, "unary-fault?")):
+            kinds = [k for k in ("unary-5xx", "unary-4xx") if self.enabled_faults.get(k)]
+            kind = kinds[self.sim.tape.draw(len(kinds), "unary-fault-kind")]
+            self.unary_fault_budget -= 1
+            self.ctx.fault(kind)
+            if kind == "unary-5xx":
+                exc = [gexc.InternalServerError, gexc.ServiceUnavailable][self.sim.tape.draw(2, "5xx")](f"injected {name}")
+            else:
+                exc = [gexc.PermissionDenied, gexc.InvalidArgument, gexc.ResourceExhausted][self.sim.tape.draw(3, "4xx")](f"injected {name}")
+            self.unary_log.append((name, _target(req), type(exc).__name__, "injected"))
+            self.injected_unary.append(exc)
+            fut.set_exception(exc)
+            return
+        try:
+            res = getattr(self, "_rpc_" + name)(req)
+        except gexc.GoogleAPICallError as e:
+            self.unary_log.append((name, _target(req), type(e).__name__, "model"))
+            fut.set_exception(e)
+            return
+        self.unary_log.append((name, _target(req), "ok", "model"))
+        fut.set_result(res)
+
+    def _job_proto(self, job: Job):
+        qj = quantum.QuantumJob(name=job.name)
+        st = quantum.ExecutionStatus.State
+        qj.execution_status.state = {"RUNNING": st.RUNNING, "DONE": st.SUCCESS, "FAILED": st.FAILURE,
+                                     "CANCELLED": st.CANCELLED}[job.state]
+        return qj
+
+    def _rpc_get_quantum_job(self, req):
+        job = self.jobs.get(req.name)
+        if job is None:
+            raise gexc.NotFound(f"job {req.name} not found")
+        return self._job_proto(job)
+
+    def _rpc_get_quantum_result(self, req):
+        job = self.jobs.get(req.parent)
+        if job is None:
+            raise gexc.NotFound(f"job {req.parent} not found")
+        if job.state != "DONE":
+            raise gexc.FailedPrecondition(f"job {req.parent} has no result (state {job.state})")
+        return self.make_result(job.name)
+
+    def _rpc_create_quantum_program(self, req):
+        name = req.quantum_program.name
+        if name in self.programs:
+            raise gexc.Conflict(f"program {name} already exists")
+        self.programs.add(name)
+        return quantum.QuantumProgram(name=name)
+
+    def _rpc_get_quantum_program(self, req):
+        if req.name not in self.programs:
+            raise gexc.NotFound(f"program {req.name} not found")
+        return quantum.QuantumProgram(name=req.name)
+
+    def _rpc_create_quantum_job(self, req):
+        pname = req.parent
+        jname = req.quantum_job.name
+        if pname not in self.programs:
+            raise gexc.NotFound(f"program {pname} not found")
+        if jname in self.jobs:
+            raise gexc.Conflict(f"job {jname} already exists")
+        job = Job(jname, jname in self.failing_jobs)
+        self.jobs[jname] = job
+        self.ctx.event("job-created", jname.rsplit("/", 1)[-1], "unary")
+        return self._job_proto(job)
 
     def _deliver(self, st: Stream, resp) -> None:
         st.outbox.remove(resp)
@@ -335,6 +429,14 @@ class ModelQuantumEngine:
         _ = had_processed_unanswered
 
 
+def _target(req) -> str:
+    for attr in ("name", "parent"):
+        v = getattr(req, attr, "")
+        if v:
+            return v.rsplit("/", 1)[-1]
+    return "?"
+
+
 class _Client:
     def __init__(self, model: ModelQuantumEngine):
         self.m = model
@@ -367,6 +469,28 @@ class _Client:
                         st.reader_task.cancel()   # grpc: Call.cancel() cancels the request poller
 
         return response_iterator()
+
+    async def _unary(self, name, request):
+        m = self.m
+        fut = asyncio.get_running_loop().create_future()
+        m._unary_seq += 1
+        m.unary_pending.append((m._unary_seq, name, request, fut))
+        return await fut
+
+    async def get_quantum_job(self, request, **kw):
+        return await self._unary("get_quantum_job", request)
+
+    async def get_quantum_result(self, request, **kw):
+        return await self._unary("get_quantum_result", request)
+
+    async def create_quantum_program(self, request, **kw):
+        return await self._unary("create_quantum_program", request)
+
+    async def get_quantum_program(self, request, **kw):
+        return await self._unary("get_quantum_program", request)
+
+    async def create_quantum_job(self, request, **kw):
+        return await self._unary("create_quantum_job", request)
 
     async def cancel_quantum_job(self, request) -> None:
         self.m.cancel_requests.append(request.name)
